@@ -142,6 +142,7 @@ impl AsmParser {
             requires bits_ok(bits),
             ensures ok == fits(bits, val),
         {>>>
+//@sub <<<!self.get_span(tok.span).contains('-')>>> ==> <<<!tok_text_has_minus(self.src, tok)>>>
 //@closure expect_where &TokenKind bool
         requires pstream_ok(*old(self)), bits_ok(bits),
         ensures
